@@ -53,6 +53,12 @@ impl SharedGroup {
             }
             Strategy::Sticky => {}
         }
+        #[cfg(feature = "verif")]
+        if self.strategy == Strategy::Random {
+            if let Some(i) = crate::verif::pick(self.clients.len()) {
+                self.current_client_index = i;
+            }
+        }
     }
 }
 
@@ -125,5 +131,13 @@ mod tests {
         assert_eq!(group.current_client_index, 2);
         group.remove_client(&"C".into());
         assert_eq!(group.current_client_index, 0);
+    }
+}
+
+#[cfg(feature = "verif-snapshot")]
+impl SharedGroup {
+    /// (members, index of the member whose turn it is, group cursor)
+    pub fn verif_state(&self) -> (Vec<String>, usize, (u64, u64)) {
+        (self.clients.clone(), self.current_client_index, self.cursor)
     }
 }
